@@ -149,7 +149,7 @@ impl Prop for C17 {
         vec![
             Dom::new(format!("pairs:seqs<={}over{{a,b,c,d}}", self.n), self.seqs.len() as u64, 16).note("case = first sequence; inner loop = every second sequence; one reused instance per worker thread"),
             Dom::new("long-families", self.long.len() as u64, 4).note("lengths 0,1,19..22,39..41,64 x 5 shapes (heavy repetition), all ordered pairs"),
-            Dom::new("call-orders<=3", m + m * m + m * m * m, 400).note("every sequence of <= 3 similarity calls on ONE fresh instance from a 16-pair menu (long-then-short included)"),
+            Dom::new(format!("call-orders<={}", self.tier.pick(3, 4)), seqs_len(m, 1, self.tier.pick(3, 4)), 400).note("every sequence of <= 3 similarity calls on ONE fresh instance from a 16-pair menu (long-then-short included)"),
         ]
     }
     fn run(&self, dom: usize, idx: u64, cx: &mut Cx) {
@@ -179,7 +179,7 @@ impl Prop for C17 {
             }
             _ => {
                 let m = self.menu.len() as u64;
-                let seq = seq_at(m, 1, 3, idx);
+                let seq = seq_at(m, 1, self.tier.pick(3, 4), idx);
                 let inst: Jaccard<char> = Jaccard::new();
                 cx.state();
                 for (step, &k) in seq.iter().enumerate() {
